@@ -61,13 +61,16 @@ func runPipe(c *Ctx) {
 	p.sh = c.newShard("p", runnerP, "caseP", "mismatches", viol)
 	p.sh.limit = 12
 	c.rep.Rule = "one case = one run of a real engine (1-8 producers mixing IngestRows/Flush/Start, Stop graceful / with deadline / with a late-AfterFunc context / never, " +
-		"buffered, drained, abandoned and nil done channels, limit- and time-triggered flushes, delayed / failing / wedged stores); the hook + store + harness event log is " +
-		"replayed through Pipeline.step and the final state compared with acks received and rows visible. Non-trivial: >= 2 producers, or a Stop racing ingest, or a store fault, " +
-		"or a limit-triggered flush. Distinct by the label sequence of the log."
+		"buffered, drained, late-drained, abandoned and nil done channels, limit- and time-triggered flushes, delayed / failing / wedged stores, all row-data compressions; " +
+		"directed: drain-path answers, cleanup-fault pairs, stalls at every store call kind under busy / trickling / rowless producers, bursts against a full flush queue, trickles below MaxBufferedTime); " +
+		"the hook + store + harness event log is replayed through Pipeline.step and the final state compared with acks received and rows visible. " +
+		"Non-trivial: >= 2 producers, or a Stop racing ingest, or a store fault or stall, or a limit- or ticker-triggered flush. Distinct by the label sequence of the log."
 
 	if p.wants("C05", "C08") {
 		pDirectedD6(p)
 		pDirectedD9(p)
+		pDirectedDrainAnswers(p)
+		pDirectedCleanupFaults(p)
 	}
 	if p.wants("C08") {
 		pDirectedD5(p)
@@ -89,6 +92,14 @@ func runPipe(c *Ctx) {
 		n := c.pick(14, 150)
 		for i := 0; i < n; i++ {
 			pBackpressure(p, i)
+		}
+		n = c.pick(6, 36)
+		for i := 0; i < n; i++ {
+			pBackpressureTrickle(p, i)
+		}
+		n = c.pick(8, 60)
+		for i := 0; i < n; i++ {
+			pBackpressureEmpties(p, i)
 		}
 	}
 	if p.wants("C10") {
@@ -248,10 +259,13 @@ func (p *pipeCtx) goPredicates(r *pRun, res *pResult, o pEvalOpts, desc map[stri
 		}
 	}
 	// C09
-	if p.wants("C09") && o.kind == "backpressure" {
-		bound := int64(r.spec.ICap + 1 + (r.spec.FCap+2)*r.spec.MaxRows)
+	if p.wants("C09") && strings.HasPrefix(o.kind, "backpressure") {
+		bound := r.bound()
 		if r.peakUn > bound {
-			c.violation(o.sig, fmt.Sprintf("run %s: %d accepted-but-unanswered batches, bound %d", r.name, r.peakUn, bound), desc)
+			c.violation(o.sig, fmt.Sprintf("run %s: %d accepted-but-unanswered batches (accepted calls minus values received, taken when the callers and receivers were quiet), bound %d", r.name, r.peakUn, bound), desc)
+		}
+		if int64(res.logPeak) > bound {
+			c.violation(o.sig, fmt.Sprintf("run %s: %d requests sent into the pipeline without a delivery attempt (peak over the event log), bound %d", r.name, res.logPeak, bound), desc)
 		}
 	}
 }
@@ -360,6 +374,134 @@ func pDirectedNoSilence(p *pipeCtx) {
 	}
 }
 
+// Direct answers of the actor (empty batch: nil at once; unmarshalable row: error at once) on the shutdown
+// drain path: the batches are still in ingestChan when Stop cancels the engine context (accepted before Start,
+// or queued behind an actor that is blocked on the flush queue), and their callers use the usual
+// `IngestRows(...); ...; <-done` pattern on an unbuffered channel, i.e. are not receiving at the instant the
+// actor gets to the batch, but do receive from then on. With ctx cancelled and ingestChan non-empty the actor's
+// select picks at random between the normal path and the drain, hence several target batches per run.
+func pDirectedDrainAnswers(p *pipeCtx) {
+	targets := func(r *pRun, ctx context.Context, n int) {
+		invalid := func(id int) *pBatch { return r.makeBatch(id, make([]int, 2), make([]int, 2), 1, false) }
+		for i := 0; i < n; i++ {
+			ch := "ldrain"
+			if i%5 == 4 {
+				ch = "buf"
+			}
+			if i%2 == 0 {
+				r.ingest(ctx, ch, simpleBatch(r, 0))
+			} else {
+				r.ingest(ctx, ch, invalid)
+			}
+		}
+	}
+	reps := p.c.pick(2, 8)
+	for v := 0; v < 2*reps; v++ {
+		o := defaultOpts()
+		o.ICap = 8
+		o.MaxRows = 1
+		ctx := context.Background()
+		if v%2 == 0 {
+			// accepted before Start, never started: Stop runs the workers, which find ctx cancelled
+			r := newPRun(p.c, fmt.Sprintf("drain-answers-never-started-%d", v/2), o)
+			r.lateGate, r.lateBy = make(chan struct{}), time.Duration(15+p.c.intn(25))*time.Millisecond
+			r.ingest(ctx, "drain", simpleBatch(r, 1))
+			targets(r, ctx, 6)
+			close(r.lateGate) // the callers get to their receive a little after Stop was called
+			r.stopWithDeadline(20 * time.Second)
+			res := r.finish(3*time.Second, true)
+			p.emit(r, res, pEvalOpts{props: []string{"C05", "C08"}, nontrivial: true, kind: "directed-drain-answers"})
+			continue
+		}
+		// running engine: flush 1 stalls in the store, flush 2 fills flushChan, flush 3 blocks the actor;
+		// the targets queue up in ingestChan; Stop; the store comes back once ctx is cancelled
+		r := newPRun(p.c, fmt.Sprintf("drain-answers-racing-stop-%d", v/2), o)
+		r.lateGate, r.lateBy = make(chan struct{}), time.Duration(15+p.c.intn(25))*time.Millisecond
+		_, release := r.plan.wedgeAt([]string{"CreateFile", "Write", "Close", "Update"}[p.c.intn(4)], 0)
+		r.start()
+		for i := 0; i < 3; i++ {
+			r.ingest(ctx, "drain", simpleBatch(r, 1))
+		}
+		if !waitFor(func() bool { return r.hasEvent("fq.try", 3) }, 2*time.Second) {
+			p.c.dist("run_kind", "discarded-setup")
+			release()
+			r.stopWithDeadline(time.Second)
+			r.finish(time.Second, false)
+			continue
+		}
+		targets(r, ctx, 7)
+		stopDone := make(chan struct{})
+		go func() { r.stopWithDeadline(20 * time.Second); close(stopDone) }()
+		waitFor(func() bool { return r.hasEvent("ctx.cancel", 1) }, 2*time.Second)
+		close(r.lateGate)
+		release()
+		select {
+		case <-stopDone:
+		case <-time.After(10 * time.Second):
+		}
+		res := r.finish(3*time.Second, true)
+		p.emit(r, res, pEvalOpts{props: []string{"C05", "C08"}, nontrivial: true, kind: "directed-drain-answers"})
+	}
+}
+
+// Every waiter of a flush is answered on every failure path of handleFlush, including the paths where the
+// cleanup call after the first failure fails too (Abort / Close-instead-of-Abort / TombstoneFile), for writers
+// with and without Abort; then a graceful Stop. Flush callers run on their own goroutine: one that is never
+// answered must show up as a finding, not hang the harness.
+func pDirectedCleanupFaults(p *pipeCtx) {
+	type fp = pFaultPoint
+	type fset struct {
+		faults []fp
+		abort  []bool // writer with / without Abort
+	}
+	both, with, without := []bool{true, false}, []bool{true}, []bool{false}
+	sets := []fset{
+		{[]fp{{"Update", 0}, {"Tombstone", 0}}, both},
+		{[]fp{{"Close", 0}, {"Tombstone", 0}}, both},
+		{[]fp{{"Close", 0}, {"Abort", 0}}, with},
+		{[]fp{{"Close", 0}, {"Abort", 0}, {"Tombstone", 0}}, with},
+		{[]fp{{"Write", 0}, {"Abort", 0}}, with},
+		{[]fp{{"Write", 1}, {"Tombstone", 0}}, both},
+		{[]fp{{"Write", 2}, {"Abort", 0}, {"Tombstone", 0}}, with},
+		{[]fp{{"Write", 0}, {"Close", 0}}, without},                   // writer without Abort: Close is the cleanup
+		{[]fp{{"Write", 1}, {"Close", 0}, {"Tombstone", 0}}, without}, // ... and the tombstone after it
+		{[]fp{{"CreateFile", 0}}, with},
+		{[]fp{{"Update", 0}, {"Tombstone", 0}, {"Update", 1}, {"Tombstone", 1}}, with},
+	}
+	for i, fs0 := range sets {
+		set := fs0.faults
+		for _, hasAbort := range fs0.abort {
+			o := defaultOpts()
+			o.HasAbort = hasAbort
+			o.Partitioned = true
+			r := newPRun(p.c, fmt.Sprintf("cleanup-faults-%d-%v", i, hasAbort), o)
+			r.flushWait = 1500 * time.Millisecond
+			fs := make([]string, len(set))
+			for j, f := range set {
+				r.plan.fail(f.kind, f.nth)
+				fs[j] = fmt.Sprintf("%s#%d", f.kind, f.nth)
+			}
+			ctx := context.Background()
+			r.start()
+			two := func(id int) *pBatch { return r.makeBatch(id, []int{0, 1}, []int{0, 0}, -1, true) }
+			one := func(n int) func(id int) *pBatch {
+				return func(id int) *pBatch { return r.makeBatch(id, make([]int, n), make([]int, n), -1, true) }
+			}
+			r.ingest(ctx, "buf", two)
+			r.ingest(ctx, "drain", one(1))
+			r.ingest(ctx, "nil", one(1))
+			r.flush(ctx)
+			r.ingest(ctx, []string{"drain", "buf"}[i%2], two)
+			r.flush(ctx)
+			r.ingest(ctx, "buf", one(2))
+			r.stopWithDeadline(20 * time.Second)
+			res := r.finish(3*time.Second, true)
+			p.emit(r, res, pEvalOpts{props: []string{"C05", "C08"}, nontrivial: true, kind: "directed-cleanup-faults",
+				extra: map[string]any{"faults": fs, "has_abort": hasAbort}})
+		}
+	}
+}
+
 func waitFor(cond func() bool, max time.Duration) bool {
 	deadline := time.Now().Add(max)
 	for time.Now().Before(deadline) {
@@ -419,7 +561,9 @@ func pRandomWorkload(p *pipeCtx, idx int) {
 	o.Partitioned = rng.IntN(2) == 0
 	o.HasAbort = rng.IntN(4) != 0
 	o.HonorCtx = rng.IntN(2) == 0
+	o.Compression = []string{"none", "none", "snappy", "zstd"}[rng.IntN(4)]
 	r := newPRun(c, fmt.Sprintf("random-%d", idx), o)
+	r.lateBy = time.Duration(1+rng.IntN(10)) * time.Millisecond
 	nProd := 1 + rng.IntN(8)
 	if rng.IntN(3) == 0 {
 		nProd = 1 + rng.IntN(2)
@@ -477,6 +621,9 @@ func pRandomWorkload(p *pipeCtx, idx int) {
 					ch := []string{"buf", "buf", "drain", "drain", "nil"}[prng.IntN(5)]
 					if abandonOK && prng.IntN(12) == 0 {
 						ch = "abandon"
+					}
+					if prng.IntN(9) == 0 {
+						ch = "ldrain" // the caller gets to its receive a little later
 					}
 					nRows := prng.IntN(5)
 					if prng.IntN(8) == 0 {
@@ -641,6 +788,35 @@ func pFaultEnumeration(p *pipeCtx) {
 
 // ---------------------------------------------------------------- C09: stalled stores
 
+// pStall wedges one flush-path store call of the run, of any call kind. Abort and TombstoneFile are
+// only called on a failure path, so a fault is planted in front of them. file is the index of the flush
+// (counting those that write a file) during which the stall happens.
+func pStall(r *pRun, rng *rand.Rand, kinds []string) (desc string, file int, release func()) {
+	kind := kinds[rng.IntN(len(kinds))]
+	nth := rng.IntN(2)
+	switch kind {
+	case "Write":
+		file = 0 // both positions lie in the first file
+	case "Abort":
+		nth = 0
+		r.plan.fail("Write", rng.IntN(3))
+	case "Tombstone":
+		nth = 0
+		if r.spec.HasAbort || rng.IntN(2) == 0 {
+			r.plan.fail("Update", 0) // published, never referenced: tombstone the orphan
+		} else {
+			r.plan.fail("Close", 0) // no Abort on this writer: Close failed, tombstone
+		}
+	default:
+		file = nth
+	}
+	_, release = r.plan.wedgeAt(kind, nth)
+	return fmt.Sprintf("%s#%d", kind, nth), file, release
+}
+
+var pStallKinds = []string{"CreateFile", "Write", "Close", "Update", "Abort", "Tombstone"}
+
+// busy producers run into a stall
 func pBackpressure(p *pipeCtx, idx int) {
 	rng := p.c.rng
 	o := defaultOpts()
@@ -648,15 +824,15 @@ func pBackpressure(p *pipeCtx, idx int) {
 	o.MaxRows = 1 + rng.IntN(4)
 	o.Partitioned = rng.IntN(2) == 0
 	r := newPRun(p.c, fmt.Sprintf("stall-%d", idx), o)
-	kind := []string{"CreateFile", "Write", "Close", "Update"}[rng.IntN(4)]
-	nth := rng.IntN(2)
-	_, release := r.plan.wedgeAt(kind, nth)
+	r.noSnap = true
+	stalled, _, release := pStall(r, rng, pStallKinds)
 	r.start()
 	nProd := 1 + rng.IntN(8)
 	seeds := make([]uint64, nProd)
 	for i := range seeds {
 		seeds[i] = rng.Uint64()
 	}
+	mixed := idx%2 == 1 // also empty and unmarshalable batches, buffered channels
 	var timeouts atomic.Int64
 	for pi := 0; pi < nProd; pi++ {
 		prng := rand.New(rand.NewPCG(seeds[pi], 9))
@@ -664,7 +840,19 @@ func pBackpressure(p *pipeCtx, idx int) {
 			n := 4 + prng.IntN(10)
 			for k := 0; k < n; k++ {
 				ctx, cancel := context.WithTimeout(context.Background(), time.Duration(5+prng.IntN(15))*time.Millisecond)
-				_, err := r.ingest(ctx, "drain", simpleBatch(r, 1))
+				build, ch := simpleBatch(r, 1), "drain"
+				if mixed {
+					ch = []string{"drain", "buf"}[prng.IntN(2)]
+					switch x := prng.IntN(10); {
+					case x < 3:
+						build = simpleBatch(r, 0)
+					case x < 4:
+						build = func(id int) *pBatch { return r.makeBatch(id, make([]int, 2), make([]int, 2), prng.IntN(2), false) }
+					case x < 6:
+						build = simpleBatch(r, 2)
+					}
+				}
+				_, err := r.ingest(ctx, ch, build)
 				cancel()
 				if err != nil {
 					timeouts.Add(1)
@@ -677,15 +865,128 @@ func pBackpressure(p *pipeCtx, idx int) {
 	// every producer gave up: the pipeline is as full as the stall lets it get; once the receivers
 	// have caught up the difference below is exact
 	r.waitQuiet(time.Second, 20*time.Millisecond)
+	r.pollBuffered()
+	r.sampleUn()
+	release()
+	r.stopWithDeadline(20 * time.Second)
+	res := r.finish(3*time.Second, true)
+	p.c.dist("stall_kind", stalled)
+	p.emit(r, res, pEvalOpts{props: []string{"C09"}, nontrivial: timeouts.Load() > 0, kind: "backpressure",
+		extra: map[string]any{"producers": nProd, "stalled": stalled, "blocked_calls": timeouts.Load(), "peak_unanswered": r.peakUn, "log_peak": res.logPeak, "bound": r.bound(), "mixed": mixed}})
+}
+
+// producers that trickle: after a batch was buffered nothing arrives until the actor's 100 ms ticker has seen
+// the buffer older than MaxBufferedTime, so the flush requests are issued from the ticker case (a busy
+// producer only ever exercises the in-request age check and the row/byte limits). Behind a stalled store
+// every idle gap must still end with the actor blocked on the full flush queue.
+func pBackpressureTrickle(p *pipeCtx, idx int) {
+	rng := p.c.rng
+	o := defaultOpts()
+	o.ICap = 1 + rng.IntN(2)
+	o.MaxRows = 2 + rng.IntN(2)
+	o.MaxTime = time.Duration(5+rng.IntN(10)) * time.Millisecond
+	o.Partitioned = rng.IntN(2) == 0
+	r := newPRun(p.c, fmt.Sprintf("stall-trickle-%d", idx), o)
+	r.noSnap = true
+	stalled, _, release := pStall(r, rng, []string{pStallKinds[idx%len(pStallKinds)]})
+	r.start()
+	gap := 100*time.Millisecond + o.MaxTime + 20*time.Millisecond
+	attempts := int(r.bound()) + 3
+	blocked, calls := 0, 0
+	tick0 := 0
+	for k := 0; k < attempts && blocked < 2; k++ {
+		ctx, cancel := context.WithTimeout(context.Background(), 40*time.Millisecond)
+		_, err := r.ingest(ctx, []string{"drain", "buf"}[rng.IntN(2)], simpleBatch(r, 1))
+		cancel()
+		calls++
+		if err != nil {
+			blocked++ // two refusals in a row: the pipeline is full
+		} else {
+			blocked = 0
+		}
+		time.Sleep(gap)
+		// callers and receivers have been quiet for a whole gap
+		r.pollBuffered()
+		r.sampleUn()
+	}
 	r.mu.Lock()
-	r.peakUn = r.accN.Load() - r.ansN.Load()
+	for _, e := range r.evs {
+		if e.Kind == "actor.tick.flush" {
+			tick0++
+		}
+	}
 	r.mu.Unlock()
 	release()
 	r.stopWithDeadline(20 * time.Second)
 	res := r.finish(3*time.Second, true)
-	p.c.dist("stall_kind", kind)
-	p.emit(r, res, pEvalOpts{props: []string{"C09"}, nontrivial: timeouts.Load() > 0, kind: "backpressure",
-		extra: map[string]any{"producers": nProd, "stalled": fmt.Sprintf("%s#%d", kind, nth), "blocked_calls": timeouts.Load(), "peak_unanswered": r.peakUn}})
+	p.c.dist("stall_kind", stalled)
+	p.c.dist("ticker_flushes_under_stall", fmt.Sprint(minInt(tick0, 4)))
+	p.emit(r, res, pEvalOpts{props: []string{"C09"}, nontrivial: tick0 > 0 && blocked > 0, kind: "backpressure-trickle",
+		extra: map[string]any{"stalled": stalled, "calls": calls, "ticker_flushes": tick0, "peak_unanswered": r.peakUn, "log_peak": res.logPeak, "bound": r.bound(),
+			"max_buffered_time_ms": o.MaxTime.Milliseconds()}})
+}
+
+// empty (and unmarshalable) batches with done channels sent while the actor holds a partial buffer behind a
+// stalled store: they carry no rows, so no limit ever stops them; each must be answered in the actor's hand.
+func pBackpressureEmpties(p *pipeCtx, idx int) {
+	rng := p.c.rng
+	o := defaultOpts()
+	o.ICap = 1 + rng.IntN(3)
+	o.MaxRows = 2 + rng.IntN(4)
+	o.Partitioned = rng.IntN(2) == 0
+	r := newPRun(p.c, fmt.Sprintf("stall-empties-%d", idx), o)
+	r.noSnap = true
+	stalled, file, release := pStall(r, rng, pStallKinds)
+	r.start()
+	// single-row batches: (file) flushes complete, one stalls in the worker, one waits in flushChan,
+	// k rows stay in the actor's buffer; the actor is idle
+	k := 1 + rng.IntN(o.MaxRows-1)
+	rows := (file+2)*o.MaxRows + k
+	for i := 0; i < rows; i++ {
+		ctx, cancel := context.WithTimeout(context.Background(), 200*time.Millisecond)
+		r.ingest(ctx, []string{"drain", "buf"}[rng.IntN(2)], simpleBatch(r, 1))
+		cancel()
+	}
+	r.waitQuiet(time.Second, 10*time.Millisecond)
+	r.pollBuffered()
+	r.sampleUn()
+	nEmpty := int(r.bound()) + 2 + rng.IntN(6)
+	nProd := 1 + rng.IntN(3)
+	var sentEmpty, refused atomic.Int64
+	for pi := 0; pi < nProd; pi++ {
+		prng := rand.New(rand.NewPCG(rng.Uint64(), 11))
+		share := nEmpty / nProd
+		if pi == 0 {
+			share += nEmpty % nProd
+		}
+		r.goProducer(func() {
+			for i := 0; i < share; i++ {
+				ctx, cancel := context.WithTimeout(context.Background(), 30*time.Millisecond)
+				build := simpleBatch(r, 0)
+				if prng.IntN(6) == 0 {
+					build = func(id int) *pBatch { return r.makeBatch(id, make([]int, 1), make([]int, 1), 0, false) }
+				}
+				_, err := r.ingest(ctx, []string{"drain", "buf", "buf"}[prng.IntN(3)], build)
+				cancel()
+				if err == nil {
+					sentEmpty.Add(1)
+				} else {
+					refused.Add(1)
+				}
+			}
+		})
+	}
+	waitFor(func() bool { return r.hung.Load() == 0 }, 5*time.Second)
+	r.waitQuiet(time.Second, 20*time.Millisecond)
+	r.pollBuffered()
+	r.sampleUn()
+	release()
+	r.stopWithDeadline(20 * time.Second)
+	res := r.finish(3*time.Second, true)
+	p.c.dist("stall_kind", stalled)
+	p.emit(r, res, pEvalOpts{props: []string{"C09"}, nontrivial: sentEmpty.Load() > 0, kind: "backpressure-empties",
+		extra: map[string]any{"stalled": stalled, "row_batches": rows, "rowless_batches_accepted": sentEmpty.Load(), "rowless_batches_refused": refused.Load(),
+			"peak_unanswered": r.peakUn, "log_peak": res.logPeak, "bound": r.bound()}})
 }
 
 // ---------------------------------------------------------------- C10: limits and time
@@ -704,17 +1005,53 @@ func pLimits(p *pipeCtx, idx int) {
 		o.MaxBytes = 1 << 20
 	}
 	o.Partitioned = rng.IntN(4) != 0
+	// the limits are defined on uncompressed sizes whatever the row data compression is
+	o.Compression = []string{"none", "snappy", "zstd"}[rng.IntN(3)]
 	nParts := 1 + rng.IntN(5)
+	// profiles: 0-2 mixed batches; 3 = only a partition byte limit can be reached (padded rows);
+	// 4 = burst: every batch reaches a partition limit while the flush worker is still busy with the
+	// previous ones (slow, responsive stores), so limit-triggered flushes meet a full flush queue
+	profile := idx % 5
+	switch profile {
+	case 3:
+		o.MaxRows, o.PartRows, o.MaxBytes = 1000, 1000, 1<<20
+		o.PartBytes = 300 + rng.IntN(1500)
+		o.Partitioned = true
+	case 4:
+		o.MaxRows, o.MaxBytes = 1000, 1<<20
+		o.Partitioned = true
+		if rng.IntN(2) == 0 {
+			o.PartRows, o.PartBytes = 1+rng.IntN(4), 1<<20
+		} else {
+			o.PartRows, o.PartBytes = 1000, 100+rng.IntN(300)
+		}
+	}
 	r := newPRun(p.c, fmt.Sprintf("limits-%d", idx), o)
+	r.noSnap = true
+	slow := profile == 4 || rng.IntN(3) == 0
+	if slow {
+		r.plan.delay[[]string{"CreateFile", "Close", "Update"}[rng.IntN(3)]] = time.Duration(2+rng.IntN(5)) * time.Millisecond
+	}
 	ctx := context.Background()
 	r.start()
 	nBatches := 6 + rng.IntN(14)
+	if profile == 4 {
+		nBatches = 5 + rng.IntN(5)
+	}
+	explicit := 0
 	for b := 0; b < nBatches; b++ {
 		n := 1 + rng.IntN(4)
 		if rng.IntN(6) == 0 {
 			n = 1 + rng.IntN(12) // crosses several limits at once
 		}
+		if profile == 4 {
+			n = minInt(o.PartRows, 4)
+			if o.PartRows == 1000 {
+				n = 1
+			}
+		}
 		parts, pad := make([]int, n), make([]int, n)
+		one := rng.IntN(nParts)
 		for i := range parts {
 			parts[i] = rng.IntN(nParts)
 			switch rng.IntN(6) {
@@ -723,16 +1060,30 @@ func pLimits(p *pipeCtx, idx int) {
 			case 1:
 				pad[i] = rng.IntN(30)
 			}
+			switch profile {
+			case 3:
+				pad[i] = 40 + rng.IntN(200)
+			case 4:
+				parts[i] = one
+				pad[i] = 0
+				if o.PartRows == 1000 {
+					pad[i] = o.PartBytes // one such row reaches the byte limit
+				}
+			}
 		}
 		bad := -1
-		if rng.IntN(12) == 0 {
+		if rng.IntN(12) == 0 && profile != 4 {
 			bad = rng.IntN(n)
 		}
 		r.ingest(ctx, []string{"buf", "nil", "drain"}[rng.IntN(3)], func(id int) *pBatch { return r.makeBatch(id, parts, pad, bad, o.Partitioned) })
-		if rng.IntN(10) == 0 {
+		if rng.IntN(10) == 0 && profile != 4 {
 			r.flush(ctx)
+			explicit++
 		}
 	}
+	// Nothing else arrives, no Flush, no Stop, MaxBufferedTime cannot elapse, the stores respond: what is
+	// still unanswered now is what the actor still buffers, and that must be below every limit.
+	p.bufferedBelowLimits(r, map[string]any{"cfg": r.spec, "compression": o.Compression, "profile": profile})
 	if rng.IntN(2) == 0 {
 		r.flush(ctx)
 	}
@@ -748,8 +1099,67 @@ func pLimits(p *pipeCtx, idx int) {
 		}
 	}
 	p.c.dist("limit_flushes", pBucket(fl))
-	p.emit(r, res, pEvalOpts{props: []string{"C10"}, nontrivial: fl > 0 && nofl > 0, kind: "limits",
-		extra: map[string]any{"limit_flushes": fl, "buffered_without_flush": nofl, "partitions": nParts}})
+	p.c.dist("compression", o.Compression)
+	p.c.dist("limits_profile", fmt.Sprint(profile))
+	p.emit(r, res, pEvalOpts{props: []string{"C10"}, nontrivial: fl > 0 && (nofl > 0 || profile == 4), kind: "limits",
+		extra: map[string]any{"limit_flushes": fl, "buffered_without_flush": nofl, "partitions": nParts, "compression": o.Compression, "profile": profile, "slow_stores": slow, "explicit_flushes": explicit}})
+}
+
+// bufferedBelowLimits waits until the run is quiet and evaluates the limits on the accepted valid batches
+// with a done channel that have not been answered (batches with a nil channel cannot be observed and are
+// left out, which only makes the sums smaller). The stores are responsive, so a flush that was issued
+// completes; the predicate is re-evaluated for a generous allowance before it counts.
+func (p *pipeCtx) bufferedBelowLimits(r *pRun, desc map[string]any) {
+	if !p.wants("C10") {
+		return
+	}
+	var what string
+	deadline := time.Now().Add(2 * time.Second)
+	for {
+		r.waitQuiet(time.Second, 15*time.Millisecond)
+		r.pollBuffered()
+		what = ""
+		var rows, bytes int64
+		parts := map[int64][2]int64{}
+		var held []int
+		r.mu.Lock()
+		for id, info := range r.ops {
+			if info.Kind != "batch" || !info.Valid || info.Rows == 0 || info.Ch == "nil" || !r.retAcc[id] || len(r.recvd[id]) > 0 {
+				continue
+			}
+			held = append(held, id)
+			for _, c := range info.Contrib {
+				rows += c[1]
+				bytes += c[2]
+				pp := parts[c[0]]
+				parts[c[0]] = [2]int64{pp[0] + c[1], pp[1] + c[2]}
+			}
+		}
+		r.mu.Unlock()
+		sort.Ints(held)
+		s := r.spec
+		switch {
+		case rows >= int64(s.MaxRows):
+			what = fmt.Sprintf("%d rows >= MaxBufferedRows %d", rows, s.MaxRows)
+		case bytes >= int64(s.MaxBytes):
+			what = fmt.Sprintf("%d bytes >= MaxBufferedBytes %d", bytes, s.MaxBytes)
+		}
+		for pid, v := range parts {
+			if v[0] >= int64(s.PartRows) {
+				what = fmt.Sprintf("partition %d: %d rows >= MaxRowGroupRows %d", pid, v[0], s.PartRows)
+			} else if v[1] >= int64(s.PartBytes) {
+				what = fmt.Sprintf("partition %d: %d uncompressed bytes >= MaxRowGroupBytes %d", pid, v[1], s.PartBytes)
+			}
+		}
+		if what == "" || time.Now().After(deadline) {
+			if what != "" {
+				desc["unanswered_batches"] = held
+				p.c.violation("", fmt.Sprintf("run %s: limit reached and not flushed: with responsive stores, no Flush, no Stop and nothing else arriving, the unanswered batches %v hold %s", r.name, held, what), desc)
+			}
+			return
+		}
+		time.Sleep(100 * time.Millisecond)
+	}
 }
 
 // time-triggered flush: no Flush, no Stop until the ack arrived
@@ -778,4 +1188,131 @@ func pTimeFlush(p *pipeCtx) {
 		res := r.finish(3*time.Second, true)
 		p.emit(r, res, pEvalOpts{props: []string{"C10"}, nontrivial: true, kind: "time-flush", extra: desc})
 	}
+	n = p.c.pick(6, 40)
+	for i := 0; i < n; i++ {
+		pTimeFlushTrickle(p, i)
+	}
+}
+
+// The age of the buffer is the age of its oldest batch, whatever arrives later: small batches keep arriving
+// less than MaxBufferedTime apart (into the same partitions, into partitions the buffer has not seen yet, as
+// empty batches, as rejected batches), no limit is reached, no Flush, no Stop. Every batch must be answered
+// within MaxBufferedTime + one 100 ms tick + flush duration of its acceptance; the allowance on top is generous
+// and the trickle simply lasts longer than that.
+func pTimeFlushTrickle(p *pipeCtx, idx int) {
+	rng := p.c.rng
+	o := defaultOpts()
+	o.MaxTime = time.Duration(25+rng.IntN(40)) * time.Millisecond
+	o.Partitioned = idx%3 != 2
+	o.Compression = []string{"none", "snappy"}[rng.IntN(2)]
+	r := newPRun(p.c, fmt.Sprintf("time-trickle-%d", idx), o)
+	r.noSnap = true
+	r.start()
+	allowance := 700 * time.Millisecond
+	limit := o.MaxTime + 100*time.Millisecond + allowance
+	gap := o.MaxTime / time.Duration(2+rng.IntN(3))
+	shape := []string{"new-partition", "same-partition", "unpartitioned", "new-partition-mixed"}[idx%4]
+	if !o.Partitioned {
+		shape = "unpartitioned"
+	}
+	ctx := context.Background()
+	type acc struct {
+		id int
+		at time.Time
+	}
+	var sent []acc
+	late := func() (int, time.Duration) {
+		r.pollBuffered()
+		r.mu.Lock()
+		defer r.mu.Unlock()
+		for _, a := range sent {
+			if len(r.recvd[a.id]) == 0 && time.Since(a.at) > limit {
+				return a.id, time.Since(a.at)
+			}
+		}
+		return -1, 0
+	}
+	// a batch counts as overdue only if it is still unanswered well after it first looked overdue, with the
+	// trickle going on meanwhile (a process that was frozen for a moment must get the chance to catch up)
+	candID, candAt := -1, time.Time{}
+	lateID, lateBy := -1, time.Duration(0)
+	observe := func() {
+		id, by := late()
+		switch {
+		case id < 0:
+			candID = -1
+		case id != candID:
+			candID, candAt = id, time.Now()
+		case time.Since(candAt) >= 150*time.Millisecond:
+			lateID, lateBy = id, by
+		}
+	}
+	// the trickle lasts until every batch of its first half has been answered, or one is overdue
+	minBatches := 6 + rng.IntN(6)
+	start := time.Now()
+	for b := 0; lateID < 0 && time.Since(start) < limit+2*time.Second; b++ {
+		part := 0
+		switch shape {
+		case "new-partition", "new-partition-mixed":
+			part = b // a partition the buffer has not seen yet
+		case "same-partition":
+			part = b % 2
+		}
+		build := func(id int) *pBatch { return r.makeBatch(id, []int{part}, []int{0}, -1, o.Partitioned) }
+		ch := []string{"drain", "buf"}[rng.IntN(2)]
+		if shape == "new-partition-mixed" || shape == "unpartitioned" {
+			switch rng.IntN(5) {
+			case 0:
+				build = simpleBatch(r, 0)
+			case 1:
+				build = func(id int) *pBatch { return r.makeBatch(id, []int{part}, []int{0}, 0, o.Partitioned) }
+			}
+		}
+		id, err := r.ingest(ctx, ch, build)
+		if err == nil {
+			sent = append(sent, acc{id, time.Now()})
+		}
+		time.Sleep(gap)
+		observe()
+		if lateID < 0 && candID < 0 && b+1 >= minBatches {
+			// stop once the first half is answered
+			r.mu.Lock()
+			done := true
+			for _, a := range sent[:len(sent)/2] {
+				if len(r.recvd[a.id]) == 0 {
+					done = false
+				}
+			}
+			r.mu.Unlock()
+			if done {
+				break
+			}
+		}
+	}
+	// the tail: nothing else arrives; the last batches are flushed by the ticker
+	for lateID < 0 {
+		r.pollBuffered()
+		r.mu.Lock()
+		open := 0
+		for _, a := range sent {
+			if len(r.recvd[a.id]) == 0 {
+				open++
+			}
+		}
+		r.mu.Unlock()
+		if open == 0 {
+			break
+		}
+		time.Sleep(5 * time.Millisecond)
+		observe()
+	}
+	desc := map[string]any{"max_buffered_time_ms": o.MaxTime.Milliseconds(), "gap_ms": gap.Milliseconds(), "shape": shape, "batches": len(sent), "allowance_ms": allowance.Milliseconds()}
+	if lateID >= 0 {
+		p.c.violation("", fmt.Sprintf("run %s (%s): batch %d still unanswered %v after it was accepted; MaxBufferedTime %v, batches kept arriving every %v, responsive stores, no limit reached, no Flush/Stop",
+			r.name, shape, lateID, lateBy.Round(time.Millisecond), o.MaxTime, gap), desc)
+	}
+	r.stopWithDeadline(20 * time.Second)
+	res := r.finish(3*time.Second, true)
+	p.c.dist("trickle_shape", shape)
+	p.emit(r, res, pEvalOpts{props: []string{"C10"}, nontrivial: len(sent) >= 3, kind: "time-trickle", extra: desc})
 }
